@@ -61,6 +61,26 @@ def gen_net(rng):
 def gen_sched(rng, info, force=None):
     strat = force or rng.choice(('walk', 'walk', 'pct', 'pct', 'stall', 'stall', 'stall', 'fifo'))
     sched = {'seed': rng.randrange(1 << 40), 'net': gen_net(rng), 'stalls': []}
+    # Threads the tree under test starts besides its connection threads (a writer thread, pool
+    # workers, a timer) are where a refactoring adds new concurrency: when the pilot run had any,
+    # half of the schedules are aimed at them -- either they are starved (they run, in a shuffled
+    # order, only when nothing else can move and no event is pending) or one of them is frozen at
+    # a random one of its operations.  The unchanged tree starts none, so nothing changes for it.
+    aux = [r for r in info.get('roles', ()) if r.startswith('aux:')]
+    if aux and rng.random() < 0.5:
+        if rng.random() < 0.5:
+            rest = [r for r in info['roles'] if not r.startswith('aux:')]
+            rng.shuffle(aux)
+            sched.update(strategy='order', order=rest + ['EVENT'] + aux, label='starve-aux')
+        else:
+            role = rng.choice(aux)
+            sched.update(strategy='walk', p_event=rng.choice((0.0, 0.05, 0.3)), label='stall-aux')
+            sched['stalls'] = [{'role': role, 'duration': None if rng.random() < 0.6 else
+                                round(log_uniform(rng, 1e-3, 3600.0), 4),
+                                'index': rng.randrange(0, max(1, info['nstable'].get(role, 1))),
+                                'after_kind': None, 'after_n': None, 'after_obj': None}]
+        set_budgets(sched, info)
+        return sched
     if strat == 'walk':
         sched.update(strategy='walk', p_event=rng.choice((0.0, 0.05, 0.3)))
     elif strat == 'pct':
